@@ -94,6 +94,11 @@ def scenario(ctx, rng, j):
                 rbytes(rng, rng.choice((0, 1, 8, 32, 100, 200))))
     if not any(fields.values()):
         fields['sigfield1'] = b'payload'
+    # the signed message is pushed onto the stack: keep it under the default
+    # item limit (1024)
+    while sum(map(len, fields.values())) > 900:
+        k = max(fields, key=lambda x: len(fields[x]))
+        fields[k] = fields[k][:len(fields[k]) // 2]
     allowed = rng.choice((0x00, 0x01, 0x03, 0x0f, 0xf0, 0x7f,
                           rng.getrandbits(8) & 0x7f))
     sub = [f for f in range(256) if not (f & ~allowed & 0xff)]
